@@ -323,6 +323,16 @@ pub fn register(m: &mut HashMap<&'static str, OpFn>) {
         let (r, e) = region(|| u * s);
         fin(e, r.to_bytes().to_vec())
     });
+    // the Elligator2 encoder of the Montgomery form (crate-private, reached through the guarded hook): straight-line code
+    // built from sqrt_ratio_i / conditional_select / conditional_negate; its input is derived from hashed (possibly secret) bytes
+    m.insert("ct.mt.elligator", |a| {
+        let b = tainted32(a, 0);
+        let (r, e) = region(|| {
+            let r0 = verif::Fe::from_bytes(&b);
+            verif::montgomery_elligator_encode(&r0)
+        });
+        fin(e, r.to_bytes().to_vec())
+    });
     m.insert("ct.mt.mulbits", |a| {
         // the bit values are secret, the length is public
         let u = MontgomeryPoint(a.b32(0));
